@@ -637,7 +637,9 @@ static bool do_nonblocking(const struct sop *o, const int pid, const int opi, co
         if (running) {
             tg->blocked_op = -1;
             tg->amnt_active = false;
-            for (int k = 0; k < nobjs; k++) if (held[k]) log_ground_for_object(k, "after-release");
+            /* no ground truth here: several holdings may be dropped one after the other, the state
+             * after the stop is not the state at each of those signals (the tap sees them exactly) */
+            (void)held;
         }
         return true;
     }
